@@ -24,6 +24,7 @@ import EPV.Gen.SandwichHot3
 import EPV.Gen.SandwichHalf3
 import EPV.Gen.Rod3
 import EPV.Tactics
+import EPV.Lemmas.Bridge.HeatTac
 
 set_option linter.all false
 
@@ -67,7 +68,7 @@ theorem sandwich_coefficients (p : SandwichInit.P) :
       ∧ SandwichInit.An0 p = 0 ∧ SandwichInit.An1 p = 0 ∧ SandwichInit.An2 p = 0 := by
   intro r
   simp only [knInt_real, bc1B_real, epv_tree, epv_leaf, r]
-  norm_num
+  heat_num_conj
 
 /-! ### end-to-end traces (Nsum = 3) against the hand model -/
 
